@@ -40,7 +40,13 @@ Inductive case :=
 | CStrf (t : Z) (fmt : bytes) (obs : bytes)
 (* `local v1, .., vn = L1, .., Ln  return <v, 1/v, tostring(v) for a numeral | v for a string>...`:
    all literals in ONE function, so they share its constant table; None: the chunk failed *)
-| CCtx (lits : list ctxlit) (obs : option (list ctxobs)).
+| CCtx (lits : list ctxlit) (obs : option (list ctxobs))
+(* the case c with its source text PLACED: preceded by `pad` bytes of blanks / line ends and handed to
+   the scanner by a reader that delivers at most dl bytes per Read (dl = 0: everything it is asked
+   for, i.e. the 4096-byte fills of the scanner's bufio.Reader; mode 1: the last Read returns its
+   bytes together with io.EOF; mode 2: a Read that returns nothing precedes every delivery).
+   What a literal denotes depends on none of the three (Text/ReaderFacts.v): both checkers ignore them *)
+| CAt (pad dl mode : Z) (c : case).
 
 Definition obytes_eqb := opt_eqb beqb.
 Definition ofval_eqb := opt_eqb fval_eqb.
@@ -127,7 +133,7 @@ Definition tonumber_of_number (z b : Z) : option fval :=
 Definition ends_numeral (rest : bytes) : bool :=
   match rest with c :: _ => negb (is_ident1 c || (c =? 46)) | [] => true end.
 
-Definition check_impl (c : case) : bool :=
+Fixpoint check_impl (c : case) : bool :=
   match c with
   | CQuote s q back => beqb (go_lua_quote s) q && obytes_eqb (lex_string q) back
   | CShort q its obs => obytes_eqb (lex_string (short_src q its)) obs
@@ -150,6 +156,7 @@ Definition check_impl (c : case) : bool :=
   | CTime tbl obs => opt_eqb Z.eqb (os_time unix_of_civil tbl) obs
   | CStrf t fmt obs => beqb (strftime (civil_of_unix t) fmt) obs
   | CCtx lits obs => ctx_check true lits obs
+  | CAt _ _ _ c' => check_impl c'
   end.
 
 (* ---------- the property on the observed behaviour ---------- *)
@@ -169,7 +176,7 @@ Definition wf_item_big (q : Z) (it : item) : bool :=
   | _ => wf_item q it
   end.
 
-Definition check_spec (c : case) : bool :=
+Fixpoint check_spec (c : case) : bool :=
   match c with
   | CQuote s q back => obytes_eqb back (Some s)
   | CShort q its obs =>
@@ -210,4 +217,5 @@ Definition check_spec (c : case) : bool :=
   | CTime tbl obs => opt_eqb Z.eqb obs (os_time unix_of_civil tbl)
   | CStrf t fmt obs => beqb obs (flat_map (render_piece (civil_of_unix t)) (parse_fmt fmt))
   | CCtx lits obs => ctx_check false lits obs   (* the grammar's value, literal by literal *)
+  | CAt _ _ _ c' => check_spec c'               (* ... wherever the text stands, however it arrives *)
   end.
